@@ -56,7 +56,7 @@ type c15Obs struct {
 
 // explore scenarios: client calls on the primary while a replica session misbehaves
 func c15Scenarios() []*explore.Scenario {
-	type opts struct{ ack, lateJoin, cut bool }
+	type opts struct{ ack, nack, lateJoin, cut bool }
 	var mkx func(name string, window, reads int, healthy bool, clients [][]string, env map[string]int, o opts) *explore.Scenario
 	mk := func(name string, window, reads int, healthy bool, clients [][]string, env map[string]int) *explore.Scenario {
 		return mkx(name, window, reads, healthy, clients, env, opts{})
@@ -81,7 +81,7 @@ func c15Scenarios() []*explore.Scenario {
 				link := &repLink{p: prim, window: window}
 				var stalledGot []uint64
 				stalled := openSession(link, "stalled:1", 1, reads, &stalledGot)
-				if o.ack {
+				if o.ack || o.nack {
 					// the stalled replica still acknowledges (its receive path is stuck, its acknowledgement path is not)
 					md, err := stalled.Header()
 					if err != nil {
@@ -93,6 +93,11 @@ func c15Scenarios() []*explore.Scenario {
 					r.Eng.Put([]byte("s"), []byte("s1"))
 					vsched.Quiesce()
 					vsched.GoNamed("ACK", func() {
+						if o.nack {
+							// the replica asks for a retransmission (its normal answer to a batch that does not continue its log)
+							(&memClient{link: link}).NegativeAcknowledge(metadata.NewOutgoingContext(context.Background(), md), &rp.Nack{MissingFromSequence: 1})
+							return
+						}
 						(&memClient{link: link}).Acknowledge(metadata.NewOutgoingContext(context.Background(), md), &rp.Ack{AcknowledgedUpTo: 1})
 					})
 				}
@@ -163,6 +168,7 @@ func c15Scenarios() []*explore.Scenario {
 		// the stalled replica's acknowledgement arrives while a send to it is stuck, and another replica connects
 		// (the table's writer is the log rotation of a flush: a second session would make the iteration order of the session map observable)
 		mkx("stalled-sender-ack-flush", 1, 0, false, [][]string{{"put", "flush", "get"}}, nil, opts{ack: true}),
+		mkx("stalled-sender-nack-flush", 1, 0, false, [][]string{{"put", "flush", "get"}}, nil, opts{nack: true}),
 		// an acknowledging replica whose connection is cut abruptly while clients write
 		mkx("disconnect-vs-put", 64, 0, false, [][]string{{"put"}}, nil, opts{cut: true}),
 		// (two sessions make the iteration order of the session map observable; that combination is covered by the discrete-event unit)
@@ -254,7 +260,7 @@ func c15TopologyUnit(unit string, env *fw.Env) *fw.Result {
 func init() {
 	fw.Register(&fw.Check{
 		ID: "C15", Level: "model_checking",
-		Rule: "the real replication.Primary on a real engine (registered as log observer) with replica sessions over an in-memory stream of bounded window; (A) stateless exploration, all interleavings up to the deviation bound (1 quick, 2 thorough): a replica that never reads (window 1) while clients put / get / commit; a healthy acknowledging replica whose poll loop (ticker as environment event) runs while clients write; a replica connection cut abruptly while a client puts (thorough tier only); an acknowledgement for the stuck session followed by a client put, flush (log rotation) and get. Oracle: in every schedule every client call returns and returns nil - a client thread that waits, directly or through a lock chain, on a stream send or on a lock held by a replication thread shows up as the scheduler's deadlock witness. " +
+		Rule: "the real replication.Primary on a real engine (registered as log observer) with replica sessions over an in-memory stream of bounded window; (A) stateless exploration, all interleavings up to the deviation bound (1 quick, 2 thorough): a replica that never reads (window 1) while clients put / get / commit; a healthy acknowledging replica whose poll loop (ticker as environment event) runs while clients write; a replica connection cut abruptly while a client puts (thorough tier only); an acknowledgement, or a retransmission request, for the stuck session followed by a client put, flush (log rotation) and get. Oracle: in every schedule every client call returns and returns nil - a client thread that waits, directly or through a lock chain, on a stream send or on a lock held by a replication thread shows up as the scheduler's deadlock witness. " +
 			"(B) discrete-event run: one replica stops reading after 1 message, one stays healthy, 45 writes over 45 s: the writer finishes, the stalled session has left GetReplicaInfo by t=45 s (heartbeat timeout 30 s), the healthy one is still listed and has received every write. Non-trivial = executions with a cross-thread conflict",
 		Assumptions: []string{"'normal time' is decided as absence of a blocking dependency on the replica (virtual time), not as a latency figure", "gRPC flow control is modelled by a bounded in-memory window"},
 		Units: func(tier string) []string {
